@@ -40,6 +40,8 @@ type Case struct {
 	// with connection IDs and return routability negotiated the untouched peer validates the new path
 	NewAddr bool     `json:"newaddr,omitempty"`
 	Corrupt *Corrupt `json:"corrupt,omitempty"`
+	// Order of the API calls at the export point: "", "close-first", "interleave" (scen.Pair.ExportOrder)
+	Order string `json:"order,omitempty"`
 }
 
 // Corrupt describes a corruption of the serialised bytes.
@@ -242,6 +244,10 @@ func run(c Case, r *pbt.R) {
 		cEP, sEP := epsFor(&c)
 		env := scen.NewEnv()
 		p := scen.NewPair(env, &cEP, &sEP)
+		p.ExportOrder = c.Order
+		if c.Order != "" {
+			r.Class("order:" + c.Order)
+		}
 		defer p.Close()
 		p.Handshake(10 * time.Minute)
 		if !(p.C.OK() && p.S.OK()) {
@@ -567,6 +573,7 @@ func genBase(t *rapid.T) Case {
 	c.Side = rapid.SampledFrom([]string{"C", "S", "both"}).Draw(t, "side")
 	c.C2 = rapid.IntRange(1, 6).Draw(t, "c2")
 	c.Second = rapid.IntRange(0, 3).Draw(t, "second") == 0
+	c.Order = rapid.SampledFrom([]string{"", "", "close-first", "interleave"}).Draw(t, "order")
 
 	return c
 }
@@ -577,6 +584,7 @@ func genCorrupt(t *rapid.T) Case {
 		c.Side = "C"
 	}
 	c.A, c.B = min(c.A, 3), min(c.B, 3)
+	c.Order = ""
 	c.Corrupt = &Corrupt{
 		Kind: rapid.SampledFrom([]string{"bit", "bit", "trunc", "field", "field", "field", "random"}).Draw(t, "kind"),
 		Pos:  rapid.IntRange(0, 1<<16).Draw(t, "pos"),
@@ -615,7 +623,7 @@ func init() {
 	pbt.Register(pbt.Prop[Case]{
 		Name: "export-import", Quick: 1500, Thorough: 40000, Gen: genBase, Run: run, Crashy: true,
 		Rule: "DTLS 1.2 session (13 suites x CID none/one-way/both x SRTP x ALPN x EMS x PSK/cert x client cert) with a traffic prefix of a,b <= 50 records, export point on client, server or both " +
-			"(ConnectionState -> MarshalBinary -> UnmarshalBinary -> ResumeWithOptions on a fresh PacketConn spliced onto the same link), c more records each way, optional second export; " +
+			"(ConnectionState -> MarshalBinary -> UnmarshalBinary -> ResumeWithOptions on a fresh PacketConn spliced onto the same link; also with the old connection closed before the snapshot is serialised, and with another state serialised while the blob is held), c more records each way, optional second export; " +
 			"oracle: payloads flow both ways exactly once, exporter output and every negotiated parameter unchanged, (epoch, seq) strictly increasing across the seam, records keep the peer's CID. " +
 			"non-trivial = traffic in both directions before export or CID/SRTP/ALPN/PSK in play; distinct = whole case",
 	})
